@@ -419,6 +419,8 @@ fn matrix_cases() -> Vec<String> {
 enum BOp {
     Conn,
     ConnSmall,
+    /// a matrix text that declares a smaller size and then fails (a cell outside it)
+    ConnFailing,
     Lex,
     LexInline,
     LexBadRef,
@@ -427,7 +429,7 @@ enum BOp {
 }
 
 fn order_cases(max: usize) -> Vec<Vec<BOp>> {
-    let ops = [BOp::Conn, BOp::ConnSmall, BOp::Lex, BOp::LexInline, BOp::LexBadRef, BOp::Resolve, BOp::Compile];
+    let ops = [BOp::Conn, BOp::ConnSmall, BOp::ConnFailing, BOp::Lex, BOp::LexInline, BOp::LexBadRef, BOp::Resolve, BOp::Compile];
     let mut all: Vec<Vec<BOp>> = vec![vec![]];
     let mut cur: Vec<Vec<BOp>> = vec![vec![]];
     for _ in 0..max {
@@ -538,6 +540,7 @@ pub fn main(tier: Tier, replay: Option<String>) -> i32 {
                             let res: Result<(), String> = match op {
                                 BOp::Conn => b.read_conn(matrix.as_bytes()).map_err(|e| e.to_string()),
                                 BOp::ConnSmall => b.read_conn("1 1\n0 0 0\n".as_bytes()).map_err(|e| e.to_string()),
+                                BOp::ConnFailing => b.read_conn("2 2\n0 0 0\n0 1 5\n5 5 9\n".as_bytes()).map_err(|e| e.to_string()),
                                 BOp::Lex => b.read_lexicon(valid.as_bytes()).map(|_| ()).map_err(|e| e.to_string()),
                                 BOp::LexInline => b.read_lexicon(inline.as_bytes()).map(|_| ()).map_err(|e| e.to_string()),
                                 BOp::LexBadRef => b.read_lexicon(badref.as_bytes()).map(|_| ()).map_err(|e| e.to_string()),
